@@ -50,6 +50,10 @@ type Plan struct {
 	Txs      []TxSpec `json:"txs"`
 	Bal      []int64  `json:"bal"` // 3 ordinary payers, 2 depositors
 	Ops      []Op     `json:"ops"`
+	// Conc: after the sequential operations, that many clients run their operations (add / remove / verify)
+	// concurrently; they are released one at a time at the pool's lock acquisitions in the order Sched chooses
+	Conc  [][]Op   `json:"conc,omitempty"`
+	Sched []uint32 `json:"sched,omitempty"`
 }
 
 // Engine implements sim.Engine.
@@ -132,6 +136,27 @@ func (Engine) Draw(rt *rapid.T, prop, tier string) any {
 			o.NewFPB = int64(rapid.IntRange(0, 3).Draw(rt, "fpb"))
 		}
 		p.Ops = append(p.Ops, o)
+	}
+	if rapid.Bool().Draw(rt, "concurrent") {
+		nc := rapid.IntRange(2, 3).Draw(rt, "nclients")
+		for c := 0; c < nc; c++ {
+			var ops []Op
+			for i, m := 0, rapid.IntRange(1, 3).Draw(rt, "ncops"); i < m; i++ {
+				k := rapid.IntRange(0, 5).Draw(rt, "ckind")
+				o := Op{Tx: rapid.IntRange(0, n-1).Draw(rt, "ctx")}
+				switch {
+				case k <= 3:
+					o.Kind = 0
+				case k == 4:
+					o.Kind = 1
+				default:
+					o.Kind = 3
+				}
+				ops = append(ops, o)
+			}
+			p.Conc = append(p.Conc, ops)
+		}
+		p.Sched = rapid.SliceOfN(rapid.Uint32Range(0, 7), 0, 40).Draw(rt, "sched")
 	}
 	return p
 }
@@ -577,6 +602,16 @@ func (Engine) Run(t *testing.T, prop string, planAny any) *sim.Outcome {
 			return fail(v)
 		}
 	}
+	if len(p.Conc) > 0 {
+		if v := concurrentPhase(p, mp, f, txs, log, out); v != nil {
+			return fail(v)
+		}
+		if v := invariants(len(p.Ops)); v != nil {
+			v.Msg = "after the concurrent clients finished: " + v.Msg
+			v.Sig = "concurrent/" + v.Class
+			return fail(v)
+		}
+	}
 	if atCap {
 		out.Probes["reached_capacity"]++
 	}
@@ -594,4 +629,97 @@ func (Engine) Run(t *testing.T, prop string, planAny any) *sim.Outcome {
 	out.Events = log.Count()
 	out.Summary = map[string]any{"cap": capn, "universe": len(txs), "ops": len(p.Ops)}
 	return out
+}
+
+// concurrentPhase runs the clients of p.Conc as real goroutines against the pool. Exactly one of them runs at any
+// time: a client stops right before every lock acquisition of the pool (build-tag hook mempool.VerifLockYield, a
+// point at which it holds none of the pool's locks) and the driver decides from p.Sched who goes on. The
+// interleavings of whole critical sections are therefore the plan's, and replay is exact.
+func concurrentPhase(p *Plan, mp *mempool.Pool, f *feer, txs []*transaction.Transaction, log *sim.Log, out *sim.Outcome) *sim.Violation {
+	type client struct {
+		id   int
+		wake chan struct{}
+		done bool
+		at   string
+		pv   *sim.Violation
+	}
+	drv := make(chan struct{})
+	clients := make([]*client, len(p.Conc))
+	var cur *client
+	mempool.VerifLockYield = func(site string) {
+		c := cur
+		if c == nil {
+			return
+		}
+		c.at = site
+		drv <- struct{}{}
+		<-c.wake
+	}
+	defer func() { mempool.VerifLockYield = nil }()
+	for i := range p.Conc {
+		c := &client{id: i, wake: make(chan struct{}), at: "start"}
+		clients[i] = c
+		ops := p.Conc[i]
+		go func() {
+			<-c.wake
+			for _, op := range ops {
+				if op.Tx < 0 || op.Tx >= len(txs) {
+					continue
+				}
+				tx := txs[op.Tx]
+				if v := sim.Recover(func() {
+					switch op.Kind {
+					case 0:
+						err := mp.Add(tx, f, op.Tx)
+						log.Addf("c%d add tx%d -> %v", c.id, op.Tx, err)
+					case 1:
+						mp.Remove(tx.Hash())
+						log.Addf("c%d remove tx%d", c.id, op.Tx)
+					default:
+						r := mp.Verify(tx, f)
+						log.Addf("c%d verify tx%d -> %v", c.id, op.Tx, r)
+					}
+				}); v != nil {
+					v.Msg = fmt.Sprintf("client %d, operation on tx%d panicked: %s", c.id, op.Tx, v.Msg)
+					c.pv = v
+					break
+				}
+			}
+			c.done = true
+			drv <- struct{}{}
+		}()
+	}
+	si := 0
+	for steps := 0; steps < 400; steps++ {
+		var live []*client
+		for _, c := range clients {
+			if !c.done {
+				live = append(live, c)
+			}
+		}
+		if len(live) == 0 {
+			break
+		}
+		k := 0
+		if si < len(p.Sched) {
+			k = int(p.Sched[si]) % len(live)
+			si++
+		}
+		cur = live[k]
+		log.Addf("run c%d from %s", cur.id, cur.at)
+		cur.wake <- struct{}{}
+		<-drv
+		out.Probes["concurrent_steps"]++
+	}
+	cur = nil
+	out.Probes["concurrent_phase"]++
+	for _, c := range clients {
+		if c.pv != nil {
+			return c.pv
+		}
+		if !c.done {
+			return sim.Violatef("harness", "harness", "client %d did not finish", c.id)
+		}
+	}
+	return nil
 }
